@@ -26,7 +26,8 @@ Ltac corr_prep :=
   cbv beta zeta;
   unfold np_exp, np_log, np_sqrt, np_abs, np_minimum, np_maximum, np_clip, np_isinf, EPSILON;
   decide_cmp_with ltac:(first [lra | interval with (i_prec 80)]);
-  cbv beta iota zeta;
+  cbv beta iota zeta delta [andb orb negb];
+  rewrite ?ln_1, ?Ropp_0;
   npow_with ltac:(first [lra | interval with (i_prec 80)]);
   unfold Rpower.
 
